@@ -504,13 +504,16 @@ func returnsCall(fn *ssa.Function, call *ssa.Call) bool {
 		}
 		n := fn.Signature.Results().Len()
 		if n == 1 {
-			if r.Results[0] != ssa.Value(call) {
+			if r.Results[0] != ssa.Value(call) && !core.AllOrigins(r.Results[0], func(o ssa.Value) bool { return o == ssa.Value(call) }) {
 				return false
 			}
 		} else {
 			for i, v := range r.Results {
-				ex, ok := v.(*ssa.Extract)
-				if !ok || ex.Tuple != ssa.Value(call) || ex.Index != i {
+				idx := i
+				if !core.AllOrigins(v, func(o ssa.Value) bool {
+					ex, ok := o.(*ssa.Extract)
+					return ok && ex.Tuple == ssa.Value(call) && ex.Index == idx
+				}) {
 					return false
 				}
 			}
